@@ -980,6 +980,10 @@ fn fn_record<'tcx>(
     } else {
         vec![]
     };
+    let generics_all: Vec<String> = {
+        let g = tcx.generics_of(did);
+        (0..g.count()).map(|i| jstr(g.param_at(i, tcx).name.as_str())).collect()
+    };
     let is_unsafe = if matches!(tcx.def_kind(did), DefKind::Fn | DefKind::AssocFn) {
         tcx.fn_sig(did).skip_binder().safety().is_unsafe()
     } else {
@@ -992,7 +996,7 @@ fn fn_record<'tcx>(
     };
     let in_test = in_cfg_test(tcx, did);
     format!(
-        "{}:{{\"display\":{},\"file\":{},\"line\":{},\"kind\":{},\"parent\":{},\"generics\":[{}],\"args\":{},\"is_unsafe\":{},\"is_pub\":{},\"test\":{},{}}}",
+        "{}:{{\"display\":{},\"file\":{},\"line\":{},\"kind\":{},\"parent\":{},\"generics\":[{}],\"generics_all\":[{}],\"args\":{},\"is_unsafe\":{},\"is_pub\":{},\"test\":{},{}}}",
         jstr(key),
         jstr(&tcx.def_path_str(did)),
         jstr(&file),
@@ -1003,6 +1007,7 @@ fn fn_record<'tcx>(
             None => "null".into(),
         },
         generics.join(","),
+        generics_all.join(","),
         body.arg_count,
         is_unsafe,
         vis_pub,
